@@ -6,6 +6,7 @@ Line protocol for the C20 model.
                                                          (stops with `;; disabled <label>` at the first label that is not enabled)
   sync.gen  <cfg> <seed> <safe:0|1> <fuel>            -> ok (label*)            a pseudo-random maximal run of the model
   sync.connect <accepted|rejected|connRefused|peerClosed>  -> ok raised=<b> alive=<b>
+  sync.connrace (loginReturns|install|loginAndInstall|sessionCloses …) -> ok installed=<b> closed=<b> event=<b> closeReturns=<b>
   witness C20                                         -> ok (name cfg labels)*  the runs the Witness theorems are about
 -/
 namespace NasdaqModel.Driver.SyncD
@@ -122,6 +123,13 @@ def handle (op : String) (args : List Sexp) : Option String :=
       | "accepted" => some .accepted | "rejected" => some .rejected
       | "connRefused" => some .connRefused | "peerClosed" => some .peerClosed | _ => none
     ev.map fun ev => let (r, a) := connect ev; s!"ok raised={b01 r} alive={b01 a}"
+  | "sync.connrace", [ls] => do
+    let evs ← (← asList ls).mapM fun x => do
+      match (← asAtom x) with
+      | "loginReturns" => some ConnEv.loginReturns | "install" => some ConnEv.install
+      | "loginAndInstall" => some ConnEv.loginAndInstall | "sessionCloses" => some ConnEv.sessionCloses | _ => none
+    let s := connRun evs
+    some s!"ok installed={b01 s.installed} closed={b01 s.sessionClosed} event={b01 s.eventSet} closeReturns={b01 (closeReturns s)}"
   | "witness", [.atom "C20"] =>
     some ("ok " ++ " ".intercalate (Witness.C20.witnesses.map fun (n, cfg, ls) =>
       s!"({n} {cfgStr cfg} (" ++ " ".intercalate (ls.map labelName) ++ "))"))
